@@ -23,6 +23,7 @@ EXPLANATION = (
     "k >= width, optimality of the slack sum."
     ' (R8, round 3) is_valid_solution() scales the error like the model; with empty paths allowed and path length ranges, length 0 lies in some range; coefficient conversion; validity check on Python numbers.'
     ' (R8, hunt 4) with a weight superset w_max covers the sum of the given weights; is_valid_solution() accepts one-node routes; known finding: the path length that selects the slack factor counts the two synthetic edges.'
+    " (R3, hunt 6) the validity checks multiply by float(scaling factor) like the model's objective; (R8) stores of the given weights leave them unaltered."
 )
 DECIDED = ["error/slack rows, linking and objective present and complete", "length-factor plumbing", "k=None -> width of the non-ignored part"]
 NOT_DECIDED = ["feasible for every k >= width", "total slack is minimum"]
@@ -80,6 +81,8 @@ def check(prog: Program, rep):
     from rules.c09 import width_demands
     from rules.common import RuleProxy
     width_demands(prog, RuleProxy(rep, "C08.R3w"), "C09.R7")
+    from rules.values import scaling_factors_converted_in_readers
+    scaling_factors_converted_in_readers(prog, rep, "C08.R3", [("kMinPathError", "is_valid_solution"), ("kMinPathErrorCycles", "is_valid_solution")])
     rep.rule("C08.R4", "the ignore set and options derive only from this call's arguments (no write to caller objects or shared defaults)", floor=6)
     from rules.c18 import class_inputs_not_mutated
     class_inputs_not_mutated(prog, rep, "C08.R4", MODELS)
